@@ -128,7 +128,9 @@ def handleValidation (cfg : Cfg) (method : Str) (reqH : Header) (key : Str) (sto
       let h := updateStoredHeaders (Header.del stored.resp.header sAge) r.header
       let stored' : Entry := { stored with requestedAt := start, receivedAt := t1, resp := respWith stored.resp h }
       let out := k (.resp (respWith stored.resp (applyStatus .revalidated h)))
-      if stored.id.isEmpty then out else Prog.setEntry stored.id stored' fun _ => out
+      -- no-store on the request or on the 304: nothing of the 304 is written
+      if stored.id.isEmpty || ccReq.noStore || (parseCC r.header).noStore then out
+      else Prog.setEntry stored.id stored' fun _ => out
     else if isStaleErrorAllowed r.status && method = sGET && !mustValidate &&
             canStaleOnError f t1 [storedCC, ccReq]
     then k (.resp (serveStale f t1 stored))
